@@ -64,6 +64,11 @@ func checkC05(c *Ctx) {
 	r.Trusted = []string{"internal/absint BDD domain and operator semantics", "AES / AES-CMAC as uninterpreted functions", "models of encoding/binary, append, copy, make, maps and function values"}
 	r.Rule("R1.end-to-end", "sender sequence then receiver sequence: every step succeeds, MIC validation is true, and the receiver's frame equals the sender's original frame for all field values, keys and counters")
 	r.Rule("R2.authenticated-bytes", "the receiver's MIC is computed over exactly the received bytes without the MIC (every received bit reaches the CMAC input)")
+	r.Rule("R3.validate-compare", "Set*DataMIC stores the MIC computed from the sender's keys, counters and 1.1 parameters; Validate*DataMIC passes the receiver's through unchanged and is true exactly when all four bytes of p.MIC equal the MIC computed from them (no key, version or parameter value short-cuts the comparison)")
+	r.Rule("R4.stateless", "every step of the sender / receiver history writes no package-level variable: what a step returns depends on its arguments and receiver only, not on earlier frames or on when a table was first built")
+	micWrappers(c, "R3.validate-compare", false)
+	statelessRoots(c, "R4.stateless", "PHYPayload.EncryptFRMPayload", "PHYPayload.EncryptFOpts", "PHYPayload.SetUplinkDataMIC", "PHYPayload.SetDownlinkDataMIC", "PHYPayload.MarshalBinary",
+		"PHYPayload.UnmarshalBinary", "PHYPayload.ValidateUplinkDataMIC", "PHYPayload.ValidateDownlinkDataMIC", "PHYPayload.DecryptFOpts", "PHYPayload.DecodeFOptsToMACCommands", "PHYPayload.DecryptFRMPayload")
 	// 0x85: a proprietary command without payload needs no registration and may stand anywhere in the list
 	upCmds := []c05Cmd{{0x03, "LinkADRAnsPayload", 1}, {0x02, "", 0}, {0x85, "", 0}, {0x06, "DevStatusAnsPayload", 2}}
 	downCmds := []c05Cmd{{0x02, "LinkCheckAnsPayload", 2}, {0x06, "", 0}, {0x85, "", 0}, {0x08, "RXTimingSetupReqPayload", 1}}
